@@ -26,6 +26,11 @@ def writeParams : List Ident → Bool → CW → CW
 /-- token head of most nodes: leading comments, mapping -/
 def CW.head (cw : CW) (tok : Token) : CW := (cw.leadingComments tok.comments).addMapping tok.sl tok.sc
 
+/-- the operand is a prefix `--` expression -/
+def Expr.isDecrement : Expr → Bool
+  | .unary _ op _ => op == [45, 45]
+  | _ => false
+
 /-- `strings.ReplaceAll(v, "`", "\\`")` -/
 def escBackticks (v : Bytes) : Bytes := v.flatMap (fun c => if c == 96 then [92, 96] else [c])
 
@@ -55,6 +60,8 @@ mutual
       (writeExpr r (cw.openIf rp)).closeIf rp
     | .unary tok op r, cw =>
       let cw := (((cw.leadingComments tok.comments).separateSigns op).addMapping tok.sl tok.sc).writeString op
+      -- `!` directly followed by `--`: a space, so that `<!--` cannot appear
+      let cw := if op == [33] && r.isDecrement then cw.writeRune 32 else cw
       if r.isNone then cw.panic else
       let rp : Bool := r.prec < precUnary
       (writeExpr r (cw.openIf rp)).closeIf rp
